@@ -1,5 +1,7 @@
 import Dashu.Model.Int.Mul
 import Dashu.Proofs.Int.Repr
+import Mathlib.Tactic.LinearCombination
+import Mathlib.Tactic.Positivity
 /-
   Refinement of the schoolbook kernels (`mul/mod.rs`, `mul/simple.rs`) to arithmetic on `Nat`/`Int`,
   for every word size and every operand length.
@@ -408,5 +410,880 @@ theorem addMulChunk_zero (W : Nat) (a b : List Nat) (ha : IsWords W a) (hb : IsW
   subst hc0
   simp only [Nat.mul_zero, Nat.add_zero] at s1
   exact ⟨rfl, s1, s3⟩
+
+-- ====================================================================== signed window updates
+
+/-- the sign factor of a `Sign` modelled as "is negative" -/
+def sgn (neg : Bool) : Int := if neg then -1 else 1
+
+/-- contract of an in-place update of a fixed-length slice: "c += δ, returns the signed carry k" -/
+def Upd (W : Nat) (c c' : List Nat) (k δ : Int) : Prop :=
+  c'.length = c.length ∧ IsWords W c' ∧
+  (val W c' : Int) + (2 : Int) ^ (W * c.length) * k = (val W c : Int) + δ
+
+theorem val_lt_int (W : Nat) (c : List Nat) (h : IsWords W c) :
+    (val W c : Int) < (2 : Int) ^ (W * c.length) := by
+  have := val_lt W c h
+  exact_mod_cast this
+
+/-- a carry out of a window whose increment is smaller than the window modulus is −1, 0 or 1 -/
+theorem Upd.carry_bound {W : Nat} {c c' : List Nat} {k δ : Int} (h : Upd W c c' k δ)
+    (hc : IsWords W c) (hδ : |δ| < (2 : Int) ^ (W * c.length)) : -1 ≤ k ∧ k ≤ 1 := by
+  obtain ⟨h1, h2, h3⟩ := h
+  have l1 := val_lt_int W c hc
+  have l2 := val_lt_int W c' h2
+  rw [h1] at l2
+  have n1 : (0 : Int) ≤ val W c := Int.natCast_nonneg _
+  have n2 : (0 : Int) ≤ val W c' := Int.natCast_nonneg _
+  have hP : (0 : Int) < (2 : Int) ^ (W * c.length) := by positivity
+  obtain ⟨d1, d2⟩ := abs_lt.mp hδ
+  constructor
+  · by_contra hcon
+    have : k ≤ -2 := by omega
+    nlinarith
+  · by_contra hcon
+    have : 2 ≤ k := by omega
+    nlinarith
+
+theorem addSignedSameLen_upd (W : Nat) (ws : List Nat) (neg : Bool) (rhs : List Nat)
+    (hw : IsWords W ws) (hr : IsWords W rhs) (hl : ws.length = rhs.length) :
+    Upd W ws (addSignedSameLen W ws neg rhs).1 (addSignedSameLen W ws neg rhs).2
+      (sgn neg * val W rhs) := by
+  unfold addSignedSameLen
+  cases neg with
+  | true =>
+    obtain ⟨s1, s2, s3, _⟩ := subSameLen_spec W ws rhs 0 hw hr hl (by omega)
+    generalize subSameLen W ws rhs 0 = res at s1 s2 s3
+    obtain ⟨r, c⟩ := res
+    simp only [if_true, sgn]
+    refine ⟨s2, s3, ?_⟩
+    have := congrArg (Nat.cast : Nat → Int) s1
+    push_cast at this ⊢
+    linarith
+  | false =>
+    obtain ⟨s1, s2, s3, _⟩ := addSameLen_spec W ws rhs 0 hw hr hl (by omega)
+    generalize addSameLen W ws rhs 0 = res at s1 s2 s3
+    obtain ⟨r, c⟩ := res
+    simp only [Bool.false_eq_true, if_false, sgn]
+    refine ⟨s2, s3, ?_⟩
+    have := congrArg (Nat.cast : Nat → Int) s1
+    push_cast at this ⊢
+    linarith
+
+theorem addSignedInPlace_upd (W : Nat) (ws : List Nat) (neg : Bool) (rhs : List Nat)
+    (hw : IsWords W ws) (hr : IsWords W rhs) (hl : rhs.length ≤ ws.length) :
+    Upd W ws (addSignedInPlace W ws neg rhs).1 (addSignedInPlace W ws neg rhs).2
+      (sgn neg * val W rhs) := by
+  unfold addSignedInPlace
+  cases neg with
+  | true =>
+    obtain ⟨s1, s2, s3, _⟩ := subInPlace_spec W ws rhs hw hr hl
+    generalize subInPlace W ws rhs = res at s1 s2 s3
+    obtain ⟨r, c⟩ := res
+    simp only [if_true, sgn]
+    refine ⟨s2, s3, ?_⟩
+    have := congrArg (Nat.cast : Nat → Int) s1
+    push_cast at this ⊢
+    linarith
+  | false =>
+    obtain ⟨s1, s2, s3, _⟩ := addInPlace_spec W ws rhs hw hr hl
+    generalize addInPlace W ws rhs = res at s1 s2 s3
+    obtain ⟨r, c⟩ := res
+    simp only [Bool.false_eq_true, if_false, sgn]
+    refine ⟨s2, s3, ?_⟩
+    have := congrArg (Nat.cast : Nat → Int) s1
+    push_cast at this ⊢
+    linarith
+
+/-- `add_signed_word_in_place` for a signed word of magnitude `< 2^W` -/
+theorem addSignedWord_upd (W : Nat) (ws : List Nat) (rhs : Int) (hw : IsWords W ws)
+    (hr : |rhs| < (2 : Int) ^ W) :
+    Upd W ws (addSignedWord W ws rhs).1 (addSignedWord W ws rhs).2 rhs := by
+  unfold addSignedWord
+  obtain ⟨r1, r2⟩ := abs_lt.mp hr
+  split
+  · rename_i h
+    rcases h with h | h
+    · subst h; exact ⟨rfl, hw, by simp⟩
+    · subst h; exact ⟨rfl, hw, by simp⟩
+  · rename_i h
+    have hne : ws ≠ [] := fun e => h (Or.inr e)
+    split
+    · rename_i hpos
+      have hlt : rhs.toNat < 2 ^ W := by
+        have : ((rhs.toNat : Nat) : Int) < ((2 ^ W : Nat) : Int) := by
+          rw [Int.toNat_of_nonneg (by omega)]; push_cast; exact r2
+        exact_mod_cast this
+      obtain ⟨o1, o2, o3, _⟩ := addWord_spec W ws rhs.toNat hw hlt hne
+      generalize addWord W ws rhs.toNat = res at o1 o2 o3
+      obtain ⟨r, c⟩ := res
+      refine ⟨o2, o3, ?_⟩
+      have := congrArg (Nat.cast : Nat → Int) o1
+      push_cast at this ⊢
+      rw [Int.toNat_of_nonneg (by omega)] at this
+      linarith
+    · rename_i hpos
+      have hlt : (-rhs).toNat < 2 ^ W := by
+        have : (((-rhs).toNat : Nat) : Int) < ((2 ^ W : Nat) : Int) := by
+          rw [Int.toNat_of_nonneg (by omega)]; push_cast; omega
+        exact_mod_cast this
+      obtain ⟨o1, o2, o3, _⟩ := subWord_spec W ws (-rhs).toNat hw hlt hne
+      generalize subWord W ws (-rhs).toNat = res at o1 o2 o3
+      obtain ⟨r, c⟩ := res
+      refine ⟨o2, o3, ?_⟩
+      have := congrArg (Nat.cast : Nat → Int) o1
+      push_cast at this ⊢
+      rw [Int.toNat_of_nonneg (by omega)] at this
+      linarith
+
+-- ------------------------------------------------------------------ windows
+
+theorem window_length (c : List Nat) (i j : Nat) (hj : j ≤ c.length) :
+    (window c i j).length = j - i := by
+  unfold window; rw [List.length_drop, length_take_of_le hj]
+
+theorem window_words {W : Nat} {c : List Nat} (h : IsWords W c) (i j : Nat) :
+    IsWords W (window c i j) := (h.take j).drop i
+
+/-- replacing the window `c[i..j]` by the result of an update with increment `δ` and carry `k`:
+    the whole slice changes by `B^i·δ − B^j·k` (the carry is still to be applied at position `j`) -/
+theorem setWindow_upd (W : Nat) (c : List Nat) (i j : Nat) (hij : i ≤ j) (hj : j ≤ c.length)
+    (hc : IsWords W c) (w' : List Nat) (k δ : Int) (h : Upd W (window c i j) w' k δ) :
+    (setWindow c i w').length = c.length ∧ IsWords W (setWindow c i w') ∧
+    (val W (setWindow c i w') : Int)
+      = (val W c : Int) + (2 : Int) ^ (W * i) * δ - (2 : Int) ^ (W * j) * k := by
+  obtain ⟨h1, h2, h3⟩ := h
+  have hwl := window_length c i j hj
+  rw [hwl] at h1 h3
+  have hti : (c.take i).length = i := length_take_of_le (by omega)
+  have hdecomp : c = c.take i ++ (window c i j ++ c.drop j) := by
+    unfold window
+    have e1 : c.take j = (c.take j).take i ++ (c.take j).drop i := (List.take_append_drop i _).symm
+    have e2 : (c.take j).take i = c.take i := by rw [List.take_take]; congr 1; omega
+    calc c = c.take j ++ c.drop j := (List.take_append_drop j c).symm
+      _ = ((c.take j).take i ++ (c.take j).drop i) ++ c.drop j := by rw [← e1]
+      _ = c.take i ++ ((c.take j).drop i ++ c.drop j) := by rw [e2, List.append_assoc]
+  have hv : (val W c : Int) = val W (c.take i)
+      + (2 : Int) ^ (W * i) * (val W (window c i j) + (2 : Int) ^ (W * (j - i)) * val W (c.drop j)) := by
+    conv => lhs; rw [hdecomp]
+    rw [val_append, val_append, hti, hwl]; push_cast; ring
+  have hsw : setWindow c i w' = c.take i ++ (w' ++ c.drop j) := by
+    unfold setWindow; rw [h1, List.append_assoc]; congr 3; omega
+  have hpow : (2 : Int) ^ (W * j) = (2 : Int) ^ (W * i) * (2 : Int) ^ (W * (j - i)) := by
+    rw [← pow_add, ← Nat.mul_add]; congr 2; omega
+  refine ⟨?_, ?_, ?_⟩
+  · rw [hsw, List.length_append, List.length_append, hti, h1, List.length_drop]; omega
+  · rw [hsw]; exact (hc.take i).append (h2.append (hc.drop j))
+  · rw [hsw, val_append, val_append, hti, h1, hv, hpow]
+    push_cast
+    linear_combination (2 : Int) ^ (W * i) * h3
+
+-- ------------------------------------------------------------------ the frontier kernel meets the contract
+
+theorem wordsOfLen_spec (W : Nat) : ∀ (len n : Nat),
+    val W (wordsOfLen W len n) = n % 2 ^ (W * len) ∧ (wordsOfLen W len n).length = len ∧
+    IsWords W (wordsOfLen W len n) := by
+  intro len
+  induction len with
+  | zero => intro n; simp [wordsOfLen, IsWords.nil, Nat.mod_one]
+  | succ len ih =>
+    intro n
+    obtain ⟨i1, i2, i3⟩ := ih (n / 2 ^ W)
+    have hp : 0 < 2 ^ W := Nat.two_pow_pos W
+    simp only [wordsOfLen, val_cons, List.length_cons]
+    refine ⟨?_, by rw [i2], IsWords.cons (Nat.mod_lt _ hp) i3⟩
+    rw [i1, pow_mul_succ, Nat.mod_mul, Nat.add_comm]
+
+/-- the signed-multiply contract every kernel must meet: c += sign·a·b with the signed carry out -/
+def MulContract (W : Nat) (K : MulKernel) (c : List Nat) (neg : Bool) (a b : List Nat) : Prop :=
+  Upd W c (K c neg a b).1 (K c neg a b).2 (sgn neg * ((val W a * val W b : Nat) : Int))
+
+theorem addSignedMulFrontier_contract (W : Nat) (c : List Nat) (neg : Bool) (a b : List Nat) :
+    MulContract W (addSignedMulFrontier W) c neg a b := by
+  unfold MulContract addSignedMulFrontier Upd sgn
+  simp only
+  have hP : (0 : Int) < ((2 ^ (W * c.length) : Nat) : Int) := by positivity
+  generalize ((val W c : Int) + (if neg = true then -1 else 1) * ((val W a * val W b : Nat) : Int)) = t
+  obtain ⟨w1, w2, w3⟩ := wordsOfLen_spec W c.length (t % ((2 ^ (W * c.length) : Nat) : Int)).toNat
+  have hm0 := Int.emod_nonneg t (ne_of_gt hP)
+  have hm1 := Int.emod_lt_of_pos t hP
+  have hlt : (t % ((2 ^ (W * c.length) : Nat) : Int)).toNat < 2 ^ (W * c.length) := by
+    have : (((t % ((2 ^ (W * c.length) : Nat) : Int)).toNat : Nat) : Int)
+        < ((2 ^ (W * c.length) : Nat) : Int) := by
+      rw [Int.toNat_of_nonneg hm0]; exact hm1
+    exact_mod_cast this
+  refine ⟨w2, w3, ?_⟩
+  rw [w1, Nat.mod_eq_of_lt hlt, Int.toNat_of_nonneg hm0]
+  have := Int.emod_add_mul_ediv t ((2 ^ (W * c.length) : Nat) : Int)
+  push_cast at this ⊢
+  linarith
+
+theorem addSignedMulChunk_contract (W : Nat) (c : List Nat) (neg : Bool) (a b : List Nat)
+    (hl : c.length = a.length + b.length) (hc : IsWords W c) (ha : IsWords W a)
+    (hb : IsWords W b) : MulContract W (addSignedMulChunk W) c neg a b := by
+  obtain ⟨s1, s2, s3, _⟩ := addSignedMulChunk_spec W c neg a b hl hc ha hb
+  refine ⟨s2, s3, ?_⟩
+  rw [s1]; unfold sgn; push_cast; ring
+
+
+-- ====================================================================== Karatsuba, chunk splitting, dispatch
+
+/- `karatsubaSameLen` as a chain of one-step functions (definitionally the same program, see
+   `karatsubaSameLen_eq`); each step is proved separately against the window-update contract. -/
+
+def kara7 (W mid : Nat) (c : List Nat) (carry carryC1 : Int) : List Nat × Int :=
+  let (w6, k6) := addSignedWord W (c.drop (3 * mid)) carryC1
+  let c := setWindow c (3 * mid) w6
+  (c, carry + k6)
+
+def kara6 (W mid : Nat) (c : List Nat) (carry carryC0 carryC1 : Int) : List Nat × Int :=
+  let (w5, k5) := addSignedWord W (window c (2 * mid) (3 * mid)) carryC0
+  let c := setWindow c (2 * mid) w5
+  kara7 W mid c carry (carryC1 + k5)
+
+def kara5 (W : Nat) (rec : MulKernel) (mid : Nat) (c : List Nat) (neg' : Bool)
+    (aDiff bDiff : List Nat) (carry carryC0 carryC1 : Int) : List Nat × Int :=
+  let (w4, k4) := rec (window c mid (3 * mid)) neg' aDiff bDiff
+  let c := setWindow c mid w4
+  kara6 W mid c carry carryC0 (carryC1 + k4)
+
+def kara4 (W : Nat) (rec : MulKernel) (mid : Nat) (c : List Nat) (neg : Bool) (cHi : List Nat)
+    (neg' : Bool) (aDiff bDiff : List Nat) (carry carryC0 carryC1 : Int) : List Nat × Int :=
+  let (w3, k3) := addSignedInPlace W (window c mid (3 * mid)) neg cHi
+  let c := setWindow c mid w3
+  kara5 W rec mid c neg' aDiff bDiff carry carryC0 (carryC1 + k3)
+
+def kara3 (W : Nat) (rec : MulKernel) (mid : Nat) (c : List Nat) (neg : Bool) (cHi : List Nat)
+    (neg' : Bool) (aDiff bDiff : List Nat) (carryC0 carryC1 : Int) : List Nat × Int :=
+  let (w2, k2) := addSignedSameLen W (c.drop (2 * mid)) neg cHi
+  let c := setWindow c (2 * mid) w2
+  kara4 W rec mid c neg cHi neg' aDiff bDiff k2 carryC0 carryC1
+
+def kara2 (W : Nat) (rec : MulKernel) (mid : Nat) (c : List Nat) (neg : Bool) (cLo cHi : List Nat)
+    (neg' : Bool) (aDiff bDiff : List Nat) (carryC0 : Int) : List Nat × Int :=
+  let (w1, k1) := addSignedSameLen W (window c mid (3 * mid)) neg cLo
+  let c := setWindow c mid w1
+  kara3 W rec mid c neg cHi neg' aDiff bDiff carryC0 k1
+
+def kara1 (W : Nat) (rec : MulKernel) (mid : Nat) (c : List Nat) (neg : Bool) (cLo cHi : List Nat)
+    (neg' : Bool) (aDiff bDiff : List Nat) : List Nat × Int :=
+  let (w0, k0) := addSignedSameLen W (window c 0 (2 * mid)) neg cLo
+  let c := setWindow c 0 w0
+  kara2 W rec mid c neg cLo cHi neg' aDiff bDiff k0
+
+theorem karatsubaSameLen_eq (W : Nat) (rec : MulKernel) (c : List Nat) (neg : Bool) (a b : List Nat) :
+    karatsubaSameLen W rec c neg a b =
+      kara1 W rec ((a.length + 1) / 2) c neg
+        (rec (List.replicate (2 * ((a.length + 1) / 2)) 0) false (a.take ((a.length + 1) / 2))
+          (b.take ((a.length + 1) / 2))).1
+        (rec (List.replicate (2 * (a.length - (a.length + 1) / 2)) 0) false
+          (a.drop ((a.length + 1) / 2)) (b.drop ((a.length + 1) / 2))).1
+        (!(neg != ((subInPlaceWithSign W (a.take ((a.length + 1) / 2)) (a.drop ((a.length + 1) / 2))).1
+            != (subInPlaceWithSign W (b.take ((a.length + 1) / 2)) (b.drop ((a.length + 1) / 2))).1)))
+        (subInPlaceWithSign W (a.take ((a.length + 1) / 2)) (a.drop ((a.length + 1) / 2))).2
+        (subInPlaceWithSign W (b.take ((a.length + 1) / 2)) (b.drop ((a.length + 1) / 2))).2 := by
+  rfl
+
+-- ------------------------------------------------------------------ generic chaining
+
+theorem drop_eq_window (c : List Nat) (i : Nat) : c.drop i = window c i c.length := by
+  unfold window; rw [List.take_length]
+
+theorem abs_sgn_mul (neg : Bool) (x : Nat) : |sgn neg * (x : Int)| = (x : Int) := by
+  cases neg <;> simp [sgn]
+
+theorem two_le_pow_int (W : Nat) (n : Nat) (hW : 1 ≤ W) (hn : 1 ≤ n) : (1 : Int) < (2 : Int) ^ (W * n) := by
+  have : (1 : Nat) < 2 ^ (W * n) := Nat.one_lt_two_pow (Nat.mul_ne_zero (by omega) (by omega))
+  exact_mod_cast this
+
+theorem eight_le_pow_int (W : Nat) (hW : 3 ≤ W) : (8 : Int) ≤ (2 : Int) ^ W := by
+  have : 2 ^ 3 ≤ 2 ^ W := Nat.pow_le_pow_right (by omega) hW
+  exact_mod_cast this
+
+/-- chain an update of the window `c[i..j]` with a contract for the rest of the computation -/
+theorem upd_step (W : Nat) (c : List Nat) (i j : Nat) (hij : i ≤ j) (hj : j ≤ c.length)
+    (hc : IsWords W c) (w' : List Nat) (k δ : Int) (h : Upd W (window c i j) w' k δ)
+    (r : List Nat × Int) (X : Int) (hr : Upd W (setWindow c i w') r.1 r.2 X) :
+    Upd W c r.1 r.2 (X + (2 : Int) ^ (W * i) * δ - (2 : Int) ^ (W * j) * k) := by
+  obtain ⟨s1, s2, s3⟩ := setWindow_upd W c i j hij hj hc w' k δ h
+  obtain ⟨r1, r2, r3⟩ := hr
+  refine ⟨by rw [r1, s1], r2, ?_⟩
+  rw [s1] at r3
+  rw [r3, s3]; ring
+
+-- ------------------------------------------------------------------ Karatsuba, step by step
+
+theorem kara7_spec (W mid : Nat) (hW : 3 ≤ W) (c : List Nat) (carry carryC1 : Int) (hc : IsWords W c)
+    (h3 : 3 * mid ≤ c.length) (hk1 : -4 ≤ carryC1) (hk2 : carryC1 ≤ 4) :
+    Upd W c (kara7 W mid c carry carryC1).1 (kara7 W mid c carry carryC1).2
+      ((2 : Int) ^ (W * (3 * mid)) * carryC1 + (2 : Int) ^ (W * c.length) * carry) := by
+  have h8 := eight_le_pow_int W hW
+  have hu := addSignedWord_upd W (c.drop (3 * mid)) carryC1 (hc.drop _)
+    (abs_lt.mpr ⟨by linarith, by linarith⟩)
+  simp only [kara7]
+  generalize addSignedWord W (c.drop (3 * mid)) carryC1 = res at hu
+  obtain ⟨w6, k6⟩ := res
+  rw [drop_eq_window] at hu
+  obtain ⟨s1, s2, s3⟩ := setWindow_upd W c (3 * mid) c.length h3 (Nat.le_refl _) hc w6 k6 carryC1 hu
+  refine ⟨s1, s2, ?_⟩
+  simp only
+  rw [s3]; ring
+
+theorem kara6_spec (W mid : Nat) (hW : 3 ≤ W) (hmid : 1 ≤ mid) (c : List Nat)
+    (carry carryC0 carryC1 : Int) (hc : IsWords W c) (h3 : 3 * mid ≤ c.length)
+    (h01 : -1 ≤ carryC0) (h02 : carryC0 ≤ 1) (hk1 : -3 ≤ carryC1) (hk2 : carryC1 ≤ 3) :
+    Upd W c (kara6 W mid c carry carryC0 carryC1).1 (kara6 W mid c carry carryC0 carryC1).2
+      ((2 : Int) ^ (W * (2 * mid)) * carryC0 + (2 : Int) ^ (W * (3 * mid)) * carryC1
+        + (2 : Int) ^ (W * c.length) * carry) := by
+  have h8 := eight_le_pow_int W hW
+  have hwl := window_length c (2 * mid) (3 * mid) h3
+  have hww := window_words hc (2 * mid) (3 * mid)
+  have hu := addSignedWord_upd W (window c (2 * mid) (3 * mid)) carryC0 hww
+    (abs_lt.mpr ⟨by linarith, by linarith⟩)
+  have hp := two_le_pow_int W (3 * mid - 2 * mid) (by omega) (by omega)
+  have hb := hu.carry_bound hww (by rw [hwl]; exact abs_lt.mpr ⟨by linarith, by linarith⟩)
+  simp only [kara6]
+  generalize addSignedWord W (window c (2 * mid) (3 * mid)) carryC0 = res at hu hb
+  obtain ⟨w5, k5⟩ := res
+  simp only at hu hb ⊢
+  obtain ⟨s1, s2, _⟩ := setWindow_upd W c (2 * mid) (3 * mid) (by omega) h3 hc w5 k5 carryC0 hu
+  have h7 := kara7_spec W mid hW (setWindow c (2 * mid) w5) carry (carryC1 + k5) s2 (by rw [s1]; exact h3)
+    (by linarith [hb.1]) (by linarith [hb.2])
+  have := upd_step W c (2 * mid) (3 * mid) (by omega) h3 hc w5 k5 carryC0 hu _ _ h7
+  rw [s1] at this
+  refine ⟨this.1, this.2.1, ?_⟩
+  rw [this.2.2]; ring
+
+
+/-- same-length contract of a recursive callee -/
+def SameLenContract (W : Nat) (K : MulKernel) : Prop :=
+  ∀ c neg a b, a.length = b.length → c.length = a.length + b.length → IsWords W c →
+    IsWords W a → IsWords W b → MulContract W K c neg a b
+
+theorem mul_lt_pow_int (W : Nat) (x y : List Nat) (hx : IsWords W x) (hy : IsWords W y) (n : Nat)
+    (hn : x.length + y.length ≤ n) :
+    ((val W x * val W y : Nat) : Int) < (2 : Int) ^ (W * n) := by
+  have h1 := val_lt W x hx
+  have h2 := val_lt W y hy
+  have h3 : val W x * val W y < 2 ^ (W * x.length) * 2 ^ (W * y.length) := Nat.mul_lt_mul'' h1 h2
+  rw [← Nat.pow_add, ← Nat.mul_add] at h3
+  have h4 : 2 ^ (W * (x.length + y.length)) ≤ 2 ^ (W * n) :=
+    Nat.pow_le_pow_right (by omega) (Nat.mul_le_mul_left _ hn)
+  have : val W x * val W y < 2 ^ (W * n) := Nat.lt_of_lt_of_le h3 h4
+  exact_mod_cast this
+
+theorem kara5_spec (W : Nat) (rec : MulKernel) (hrec : SameLenContract W rec) (mid : Nat) (hW : 3 ≤ W)
+    (hmid : 1 ≤ mid) (c : List Nat) (neg' : Bool) (aDiff bDiff : List Nat)
+    (carry carryC0 carryC1 : Int) (hc : IsWords W c) (h3 : 3 * mid ≤ c.length)
+    (hda : aDiff.length = mid) (hdb : bDiff.length = mid) (hwa : IsWords W aDiff)
+    (hwb : IsWords W bDiff)
+    (h01 : -1 ≤ carryC0) (h02 : carryC0 ≤ 1) (hk1 : -2 ≤ carryC1) (hk2 : carryC1 ≤ 2) :
+    Upd W c (kara5 W rec mid c neg' aDiff bDiff carry carryC0 carryC1).1
+      (kara5 W rec mid c neg' aDiff bDiff carry carryC0 carryC1).2
+      ((2 : Int) ^ (W * mid) * (sgn neg' * ((val W aDiff * val W bDiff : Nat) : Int))
+        + (2 : Int) ^ (W * (2 * mid)) * carryC0 + (2 : Int) ^ (W * (3 * mid)) * carryC1
+        + (2 : Int) ^ (W * c.length) * carry) := by
+  have hwl := window_length c mid (3 * mid) h3
+  have hww := window_words hc mid (3 * mid)
+  have hu : Upd W (window c mid (3 * mid)) _ _ _ := hrec (window c mid (3 * mid)) neg' aDiff bDiff
+    (by rw [hda, hdb]) (by rw [hwl, hda, hdb]; omega) hww hwa hwb
+  have hb := hu.carry_bound hww (by
+    rw [abs_sgn_mul]; exact mul_lt_pow_int W aDiff bDiff hwa hwb _ (by rw [hwl, hda, hdb]; omega))
+  simp only [kara5]
+  generalize rec (window c mid (3 * mid)) neg' aDiff bDiff = res at hu hb
+  obtain ⟨w4, k4⟩ := res
+  simp only at hu hb ⊢
+  obtain ⟨s1, s2, _⟩ := setWindow_upd W c mid (3 * mid) (by omega) h3 hc w4 k4 _ hu
+  have h6 := kara6_spec W mid hW hmid (setWindow c mid w4) carry carryC0 (carryC1 + k4) s2
+    (by rw [s1]; exact h3) h01 h02 (by linarith [hb.1]) (by linarith [hb.2])
+  have := upd_step W c mid (3 * mid) (by omega) h3 hc w4 k4 _ hu _ _ h6
+  rw [s1] at this
+  refine ⟨this.1, this.2.1, ?_⟩
+  rw [this.2.2]; ring
+
+theorem kara4_spec (W : Nat) (rec : MulKernel) (hrec : SameLenContract W rec) (mid : Nat) (hW : 3 ≤ W)
+    (hmid : 1 ≤ mid) (c : List Nat) (neg : Bool) (cHi : List Nat) (neg' : Bool)
+    (aDiff bDiff : List Nat) (carry carryC0 carryC1 : Int) (hc : IsWords W c)
+    (h3 : 3 * mid ≤ c.length) (hhi : cHi.length ≤ 2 * mid) (hwhi : IsWords W cHi)
+    (hda : aDiff.length = mid) (hdb : bDiff.length = mid) (hwa : IsWords W aDiff)
+    (hwb : IsWords W bDiff)
+    (h01 : -1 ≤ carryC0) (h02 : carryC0 ≤ 1) (hk1 : -1 ≤ carryC1) (hk2 : carryC1 ≤ 1) :
+    Upd W c (kara4 W rec mid c neg cHi neg' aDiff bDiff carry carryC0 carryC1).1
+      (kara4 W rec mid c neg cHi neg' aDiff bDiff carry carryC0 carryC1).2
+      ((2 : Int) ^ (W * mid) * (sgn neg * (val W cHi : Int)
+          + sgn neg' * ((val W aDiff * val W bDiff : Nat) : Int))
+        + (2 : Int) ^ (W * (2 * mid)) * carryC0 + (2 : Int) ^ (W * (3 * mid)) * carryC1
+        + (2 : Int) ^ (W * c.length) * carry) := by
+  have hwl := window_length c mid (3 * mid) h3
+  have hww := window_words hc mid (3 * mid)
+  have hu := addSignedInPlace_upd W (window c mid (3 * mid)) neg cHi hww hwhi (by rw [hwl]; omega)
+  have hb := hu.carry_bound hww (by
+    rw [abs_sgn_mul, hwl]
+    have h1 := val_lt W cHi hwhi
+    have h2 : 2 ^ (W * cHi.length) ≤ 2 ^ (W * (3 * mid - mid)) :=
+      Nat.pow_le_pow_right (by omega) (Nat.mul_le_mul_left _ (by omega))
+    have : val W cHi < 2 ^ (W * (3 * mid - mid)) := Nat.lt_of_lt_of_le h1 h2
+    exact_mod_cast this)
+  simp only [kara4]
+  generalize addSignedInPlace W (window c mid (3 * mid)) neg cHi = res at hu hb
+  obtain ⟨w3, k3⟩ := res
+  simp only at hu hb ⊢
+  obtain ⟨s1, s2, _⟩ := setWindow_upd W c mid (3 * mid) (by omega) h3 hc w3 k3 _ hu
+  have h5 := kara5_spec W rec hrec mid hW hmid (setWindow c mid w3) neg' aDiff bDiff carry carryC0
+    (carryC1 + k3) s2 (by rw [s1]; exact h3) hda hdb hwa hwb h01 h02 (by linarith [hb.1])
+    (by linarith [hb.2])
+  have := upd_step W c mid (3 * mid) (by omega) h3 hc w3 k3 _ hu _ _ h5
+  rw [s1] at this
+  refine ⟨this.1, this.2.1, ?_⟩
+  rw [this.2.2]; ring
+
+theorem kara3_spec (W : Nat) (rec : MulKernel) (hrec : SameLenContract W rec) (mid : Nat) (hW : 3 ≤ W)
+    (hmid : 1 ≤ mid) (c : List Nat) (neg : Bool) (cHi : List Nat) (neg' : Bool)
+    (aDiff bDiff : List Nat) (carryC0 carryC1 : Int) (hc : IsWords W c)
+    (h3 : 3 * mid ≤ c.length) (h4 : c.length ≤ 4 * mid) (hhi : cHi.length + 2 * mid = c.length) (hwhi : IsWords W cHi)
+    (hda : aDiff.length = mid) (hdb : bDiff.length = mid) (hwa : IsWords W aDiff)
+    (hwb : IsWords W bDiff)
+    (h01 : -1 ≤ carryC0) (h02 : carryC0 ≤ 1) (hk1 : -1 ≤ carryC1) (hk2 : carryC1 ≤ 1) :
+    Upd W c (kara3 W rec mid c neg cHi neg' aDiff bDiff carryC0 carryC1).1
+      (kara3 W rec mid c neg cHi neg' aDiff bDiff carryC0 carryC1).2
+      ((2 : Int) ^ (W * mid) * (sgn neg * (val W cHi : Int)
+          + sgn neg' * ((val W aDiff * val W bDiff : Nat) : Int))
+        + (2 : Int) ^ (W * (2 * mid)) * (sgn neg * (val W cHi : Int) + carryC0)
+        + (2 : Int) ^ (W * (3 * mid)) * carryC1) := by
+  have hwl := window_length c (2 * mid) c.length (Nat.le_refl _)
+  have hww := window_words hc (2 * mid) c.length
+  have hu := addSignedSameLen_upd W (c.drop (2 * mid)) neg cHi (hc.drop _) hwhi
+    (by rw [List.length_drop]; omega)
+  simp only [kara3]
+  generalize addSignedSameLen W (c.drop (2 * mid)) neg cHi = res at hu
+  obtain ⟨w2, k2⟩ := res
+  rw [drop_eq_window] at hu
+  simp only at hu ⊢
+  obtain ⟨s1, s2, _⟩ := setWindow_upd W c (2 * mid) c.length (by omega) (Nat.le_refl _) hc w2 k2 _ hu
+  have h4 := kara4_spec W rec hrec mid hW hmid (setWindow c (2 * mid) w2) neg cHi neg' aDiff bDiff k2
+    carryC0 carryC1 s2 (by rw [s1]; exact h3) (by omega) hwhi hda hdb hwa hwb h01 h02 hk1 hk2
+  have := upd_step W c (2 * mid) c.length (by omega) (Nat.le_refl _) hc w2 k2 _ hu _ _ h4
+  rw [s1] at this
+  refine ⟨this.1, this.2.1, ?_⟩
+  rw [this.2.2]; ring
+
+theorem kara2_spec (W : Nat) (rec : MulKernel) (hrec : SameLenContract W rec) (mid : Nat) (hW : 3 ≤ W)
+    (hmid : 1 ≤ mid) (c : List Nat) (neg : Bool) (cLo cHi : List Nat) (neg' : Bool)
+    (aDiff bDiff : List Nat) (carryC0 : Int) (hc : IsWords W c)
+    (h3 : 3 * mid ≤ c.length) (h4 : c.length ≤ 4 * mid) (hlo : cLo.length = 2 * mid) (hwlo : IsWords W cLo)
+    (hhi : cHi.length + 2 * mid = c.length) (hwhi : IsWords W cHi)
+    (hda : aDiff.length = mid) (hdb : bDiff.length = mid) (hwa : IsWords W aDiff)
+    (hwb : IsWords W bDiff) (h01 : -1 ≤ carryC0) (h02 : carryC0 ≤ 1) :
+    Upd W c (kara2 W rec mid c neg cLo cHi neg' aDiff bDiff carryC0).1
+      (kara2 W rec mid c neg cLo cHi neg' aDiff bDiff carryC0).2
+      ((2 : Int) ^ (W * mid) * (sgn neg * (val W cLo : Int) + sgn neg * (val W cHi : Int)
+          + sgn neg' * ((val W aDiff * val W bDiff : Nat) : Int))
+        + (2 : Int) ^ (W * (2 * mid)) * (sgn neg * (val W cHi : Int) + carryC0)) := by
+  have hwl := window_length c mid (3 * mid) h3
+  have hww := window_words hc mid (3 * mid)
+  have hu := addSignedSameLen_upd W (window c mid (3 * mid)) neg cLo hww hwlo (by rw [hwl, hlo]; omega)
+  have hb := hu.carry_bound hww (by
+    rw [abs_sgn_mul, hwl]
+    have h1 := val_lt W cLo hwlo
+    rw [hlo] at h1
+    have : 3 * mid - mid = 2 * mid := by omega
+    rw [this]
+    exact_mod_cast h1)
+  simp only [kara2]
+  generalize addSignedSameLen W (window c mid (3 * mid)) neg cLo = res at hu hb
+  obtain ⟨w1, k1⟩ := res
+  simp only at hu hb ⊢
+  obtain ⟨s1, s2, _⟩ := setWindow_upd W c mid (3 * mid) (by omega) h3 hc w1 k1 _ hu
+  have h3' := kara3_spec W rec hrec mid hW hmid (setWindow c mid w1) neg cHi neg' aDiff bDiff carryC0 k1
+    s2 (by rw [s1]; exact h3) (by rw [s1]; exact h4) (by rw [s1]; exact hhi) hwhi hda hdb hwa hwb h01 h02 hb.1 hb.2
+  have := upd_step W c mid (3 * mid) (by omega) h3 hc w1 k1 _ hu _ _ h3'
+  refine ⟨this.1, this.2.1, ?_⟩
+  rw [this.2.2]; ring
+
+theorem kara1_spec (W : Nat) (rec : MulKernel) (hrec : SameLenContract W rec) (mid : Nat) (hW : 3 ≤ W)
+    (hmid : 1 ≤ mid) (c : List Nat) (neg : Bool) (cLo cHi : List Nat) (neg' : Bool)
+    (aDiff bDiff : List Nat) (hc : IsWords W c)
+    (h3 : 3 * mid ≤ c.length) (h4 : c.length ≤ 4 * mid) (hlo : cLo.length = 2 * mid) (hwlo : IsWords W cLo)
+    (hhi : cHi.length + 2 * mid = c.length) (hwhi : IsWords W cHi)
+    (hda : aDiff.length = mid) (hdb : bDiff.length = mid) (hwa : IsWords W aDiff)
+    (hwb : IsWords W bDiff) :
+    Upd W c (kara1 W rec mid c neg cLo cHi neg' aDiff bDiff).1
+      (kara1 W rec mid c neg cLo cHi neg' aDiff bDiff).2
+      (sgn neg * (val W cLo : Int)
+        + (2 : Int) ^ (W * mid) * (sgn neg * (val W cLo : Int) + sgn neg * (val W cHi : Int)
+          + sgn neg' * ((val W aDiff * val W bDiff : Nat) : Int))
+        + (2 : Int) ^ (W * (2 * mid)) * (sgn neg * (val W cHi : Int))) := by
+  have hwl := window_length c 0 (2 * mid) (by omega)
+  have hww := window_words hc 0 (2 * mid)
+  have hu := addSignedSameLen_upd W (window c 0 (2 * mid)) neg cLo hww hwlo (by rw [hwl, hlo]; omega)
+  have hb := hu.carry_bound hww (by
+    rw [abs_sgn_mul, hwl]
+    have h1 := val_lt W cLo hwlo
+    rw [hlo] at h1
+    exact_mod_cast h1)
+  simp only [kara1]
+  generalize addSignedSameLen W (window c 0 (2 * mid)) neg cLo = res at hu hb
+  obtain ⟨w0, k0⟩ := res
+  simp only at hu hb ⊢
+  obtain ⟨s1, s2, _⟩ := setWindow_upd W c 0 (2 * mid) (by omega) (by omega) hc w0 k0 _ hu
+  have h2 := kara2_spec W rec hrec mid hW hmid (setWindow c 0 w0) neg cLo cHi neg' aDiff bDiff k0
+    s2 (by rw [s1]; exact h3) (by rw [s1]; exact h4) hlo hwlo (by rw [s1]; exact hhi) hwhi hda hdb hwa hwb hb.1 hb.2
+  have := upd_step W c 0 (2 * mid) (by omega) (by omega) hc w0 k0 _ hu _ _ h2
+  refine ⟨this.1, this.2.1, ?_⟩
+  rw [this.2.2]; simp only [Nat.mul_zero, pow_zero]; ring
+
+
+theorem val_replicate_zero (W n : Nat) : val W (List.replicate n 0) = 0 := by
+  induction n with
+  | zero => rfl
+  | succ n ih => simp [List.replicate_succ, ih]
+
+theorem isWords_replicate_zero (W n : Nat) : IsWords W (List.replicate n 0) := by
+  intro x hx; rw [List.eq_of_mem_replicate hx]; exact Nat.two_pow_pos W
+
+/-- a product accumulated into a zero-filled scratch buffer of sufficient length: the carry is zero
+    (`debug_assert_zero!`) and the buffer holds the product -/
+theorem upd_zero_product (W n : Nat) (r : List Nat) (k : Int) (x : Nat)
+    (h : Upd W (List.replicate n 0) r k (sgn false * (x : Int)))
+    (hx : (x : Int) < (2 : Int) ^ (W * n)) : k = 0 ∧ val W r = x ∧ r.length = n ∧ IsWords W r := by
+  obtain ⟨h1, h2, h3⟩ := h
+  simp only [List.length_replicate, val_replicate_zero, sgn, Bool.false_eq_true, if_false,
+    Nat.cast_zero, zero_add, one_mul] at h1 h3
+  have l2 := val_lt_int W r h2
+  rw [h1] at l2
+  have n2 : (0 : Int) ≤ val W r := Int.natCast_nonneg _
+  have n3 : (0 : Int) ≤ (x : Int) := Int.natCast_nonneg _
+  have hk : k = 0 := by
+    by_contra hne
+    rcases lt_or_gt_of_ne hne with hlt | hgt
+    · have : k ≤ -1 := by omega
+      nlinarith
+    · have : 1 ≤ k := by omega
+      nlinarith
+  subst hk
+  refine ⟨rfl, ?_, h1, h2⟩
+  have : (val W r : Int) = x := by linarith
+  exact_mod_cast this
+
+theorem sgn_diff (W : Nat) (x y : List Nat) (hx : IsWords W x) (hy : IsWords W y)
+    (hl : y.length ≤ x.length) :
+    (subInPlaceWithSign W x y).2.length = x.length ∧ IsWords W (subInPlaceWithSign W x y).2 ∧
+    sgn (subInPlaceWithSign W x y).1 * (val W (subInPlaceWithSign W x y).2 : Int)
+      = (val W x : Int) - val W y := by
+  obtain ⟨s1, s2, s3, s4⟩ := subInPlaceWithSign_spec W x y hx hy hl
+  refine ⟨s1, s2, ?_⟩
+  generalize subInPlaceWithSign W x y = res at s3 s4
+  obtain ⟨sg, d⟩ := res
+  cases sg with
+  | false => have := s3 rfl; simp only [sgn] at *; simp; omega
+  | true => have := (s4 rfl).1; simp only [sgn] at *; simp; omega
+
+theorem sgn_karatsuba (neg sa sb : Bool) :
+    sgn (!(neg != (sa != sb))) = -(sgn neg * sgn sa * sgn sb) := by
+  cases neg <;> cases sa <;> cases sb <;> simp [sgn]
+
+/-- **Karatsuba** (`karatsuba::add_signed_mul_same_len`): if the recursive callee meets the
+    same-length contract then so does one Karatsuba level, for every `n ≥ 2` -/
+theorem karatsubaSameLen_contract (W : Nat) (hW : 3 ≤ W) (rec : MulKernel)
+    (hrec : SameLenContract W rec) (c : List Nat) (neg : Bool) (a b : List Nat)
+    (hab : a.length = b.length) (hn : 2 ≤ a.length) (hcl : c.length = a.length + b.length)
+    (hc : IsWords W c) (ha : IsWords W a) (hb : IsWords W b) :
+    MulContract W (karatsubaSameLen W rec) c neg a b := by
+  unfold MulContract
+  rw [karatsubaSameLen_eq]
+  generalize hmid : (a.length + 1) / 2 = mid
+  have hm1 : 1 ≤ mid := by omega
+  have hm2 : mid ≤ a.length := by omega
+  have hm3 : 3 * mid ≤ c.length := by omega
+  have hm4 : c.length ≤ 4 * mid := by omega
+  have hal : (a.take mid).length = mid := length_take_of_le hm2
+  have hbl : (b.take mid).length = mid := length_take_of_le (by omega)
+  have had : (a.drop mid).length = a.length - mid := List.length_drop ..
+  have hbd : (b.drop mid).length = a.length - mid := by rw [List.length_drop]; omega
+  -- c_lo = a_lo * b_lo
+  have hlo := hrec (List.replicate (2 * mid) 0) false (a.take mid) (b.take mid) (by rw [hal, hbl])
+    (by rw [List.length_replicate, hal, hbl]; omega) (isWords_replicate_zero W _) (ha.take _) (hb.take _)
+  obtain ⟨_, vlo, llo, wlo⟩ := upd_zero_product W (2 * mid) _ _ _ hlo
+    (mul_lt_pow_int W _ _ (ha.take _) (hb.take _) _ (by rw [hal, hbl]; omega))
+  -- c_hi = a_hi * b_hi
+  have hhi := hrec (List.replicate (2 * (a.length - mid)) 0) false (a.drop mid) (b.drop mid)
+    (by rw [had, hbd]) (by rw [List.length_replicate, had, hbd]; omega) (isWords_replicate_zero W _)
+    (ha.drop _) (hb.drop _)
+  obtain ⟨_, vhi, lhi, whi⟩ := upd_zero_product W (2 * (a.length - mid)) _ _ _ hhi
+    (mul_lt_pow_int W _ _ (ha.drop _) (hb.drop _) _ (by rw [had, hbd]; omega))
+  -- the differences
+  obtain ⟨dal, daw, dav⟩ := sgn_diff W (a.take mid) (a.drop mid) (ha.take _) (ha.drop _)
+    (by rw [hal, had]; omega)
+  obtain ⟨dbl, dbw, dbv⟩ := sgn_diff W (b.take mid) (b.drop mid) (hb.take _) (hb.drop _)
+    (by rw [hbl, hbd]; omega)
+  have h1 := kara1_spec W rec hrec mid hW hm1 c neg _ _
+    (!(neg != ((subInPlaceWithSign W (a.take mid) (a.drop mid)).1
+      != (subInPlaceWithSign W (b.take mid) (b.drop mid)).1)))
+    _ _ hc hm3 hm4 llo wlo (by rw [lhi]; omega) whi (by rw [dal, hal]) (by rw [dbl, hbl]) daw dbw
+  refine ⟨h1.1, h1.2.1, ?_⟩
+  rw [h1.2.2, vlo, vhi, sgn_karatsuba]
+  have hva := val_take_add_drop W a mid
+  have hvb := val_take_add_drop W b mid
+  rw [hal] at hva
+  rw [hbl] at hvb
+  have hpow : (2 : Int) ^ (W * (2 * mid)) = (2 : Int) ^ (W * mid) * (2 : Int) ^ (W * mid) := by
+    rw [← pow_add]; congr 1; ring
+  rw [hva, hvb, hpow]
+  push_cast
+  generalize (val W (a.take mid) : Int) = aLo at *
+  generalize (val W (a.drop mid) : Int) = aHi at *
+  generalize (val W (b.take mid) : Int) = bLo at *
+  generalize (val W (b.drop mid) : Int) = bHi at *
+  generalize sgn (subInPlaceWithSign W (a.take mid) (a.drop mid)).1 = sa at *
+  generalize sgn (subInPlaceWithSign W (b.take mid) (b.drop mid)).1 = sb at *
+  generalize (val W (subInPlaceWithSign W (a.take mid) (a.drop mid)).2 : Int) = dA at *
+  generalize (val W (subInPlaceWithSign W (b.take mid) (b.drop mid)).2 : Int) = dB at *
+  generalize (2 : Int) ^ (W * mid) = Bm
+  generalize sgn neg = s
+  have e : sa * sb * (dA * dB) = (aLo - aHi) * (bLo - bHi) := by rw [← dav, ← dbv]; ring
+  linear_combination (-(s * Bm)) * e
+
+
+-- ------------------------------------------------------------------ mul::add_signed_mul_same_len
+
+/-- side conditions on the regenerated thresholds (checked on their current values) -/
+theorem threshold_simple_pos : 1 ≤ Dashu.Gen.mul_THRESHOLD_SIMPLE := by decide
+theorem chunk_len_pos : 1 ≤ Dashu.Gen.mul_simple_CHUNK_LEN := by decide
+
+theorem addSignedMulSameLen_contract (W : Nat) (hW : 3 ≤ W) :
+    ∀ fuel, SameLenContract W (addSignedMulSameLen W fuel) := by
+  intro fuel
+  induction fuel with
+  | zero =>
+    intro c neg a b _ hcl hc ha hb
+    exact addSignedMulChunk_contract W c neg a b hcl hc ha hb
+  | succ fuel ih =>
+    intro c neg a b hab hcl hc ha hb
+    unfold MulContract
+    simp only [addSignedMulSameLen]
+    split
+    · exact addSignedMulChunk_contract W c neg a b hcl hc ha hb
+    · rename_i h1
+      split
+      · have h2 := threshold_simple_pos
+        exact karatsubaSameLen_contract W hW _ ih c neg a b hab (by omega) hcl hc ha hb
+      · exact addSignedMulFrontier_contract W c neg a b
+
+-- ------------------------------------------------------------------ helpers::add_signed_mul_split_into_chunks
+
+/-- general contract: any operand lengths with `c.len() = a.len() + b.len()` -/
+def GenContract (W : Nat) (K : MulKernel) : Prop :=
+  ∀ c neg a b, c.length = a.length + b.length → IsWords W c → IsWords W a → IsWords W b →
+    MulContract W K c neg a b
+
+theorem take_append_eq_setWindow (c : List Nat) (i : Nat) (w : List Nat)
+    (h : i + w.length = c.length) : c.take i ++ w = setWindow c i w := by
+  unfold setWindow
+  rw [h, List.drop_length, List.append_nil]
+
+theorem splitFinish_spec (W : Nat) (hW : 3 ≤ W) (tail : MulKernel) (htail : GenContract W tail)
+    (c : List Nat) (neg : Bool) (a b : List Nat) (carryN : Int)
+    (hcl : c.length = a.length + b.length) (hc : IsWords W c) (ha : IsWords W a) (hb : IsWords W b)
+    (hk1 : -2 ≤ carryN) (hk2 : carryN ≤ 2) :
+    Upd W c (splitFinish W tail c neg a b carryN).1 (splitFinish W tail c neg a b carryN).2
+      (sgn neg * ((val W a * val W b : Nat) : Int) + (2 : Int) ^ (W * b.length) * carryN) := by
+  have h8 := eight_le_pow_int W hW
+  have hu := addSignedWord_upd W (c.drop b.length) carryN (hc.drop _)
+    (abs_lt.mpr ⟨by linarith, by linarith⟩)
+  simp only [splitFinish]
+  generalize addSignedWord W (c.drop b.length) carryN = res at hu
+  obtain ⟨w, carry0⟩ := res
+  rw [drop_eq_window] at hu
+  have hwl : w.length = c.length - b.length := by
+    rw [hu.1, window_length c _ _ (Nat.le_refl _)]
+  simp only
+  rw [take_append_eq_setWindow c b.length w (by omega)]
+  obtain ⟨s1, s2, s3⟩ := setWindow_upd W c b.length c.length (by omega) (Nat.le_refl _) hc w carry0 _ hu
+  split
+  · rename_i hge
+    have ht := htail (setWindow c b.length w) neg a b (by rw [s1]; exact hcl) s2 ha hb
+    unfold MulContract at ht
+    generalize tail (setWindow c b.length w) neg a b = res2 at ht ⊢
+    obtain ⟨r, k⟩ := res2
+    obtain ⟨t1, t2, t3⟩ := ht
+    simp only at t1 t2 t3 ⊢
+    rw [s1] at t1 t3
+    refine ⟨t1, t2, ?_⟩
+    linear_combination t3 + s3
+  · split
+    · rename_i hlt hne
+      have ht := htail (setWindow c b.length w) neg b a (by rw [s1]; omega) s2 hb ha
+      unfold MulContract at ht
+      generalize tail (setWindow c b.length w) neg b a = res2 at ht ⊢
+      obtain ⟨r, k⟩ := res2
+      obtain ⟨t1, t2, t3⟩ := ht
+      simp only at t1 t2 t3 ⊢
+      rw [s1] at t1 t3
+      refine ⟨t1, t2, ?_⟩
+      rw [Nat.mul_comm (val W a) (val W b)]
+      linear_combination t3 + s3
+    · rename_i hlt hnil
+      have hnil' : a = [] := by
+        by_contra hcon; exact hnil hcon
+      subst hnil'
+      refine ⟨s1, s2, ?_⟩
+      simp only [val_nil, Nat.zero_mul, Nat.cast_zero, mul_zero, zero_add]
+      linear_combination s3
+
+theorem splitLoop_spec (W : Nat) (hW : 3 ≤ W) (chunkLen : Nat) (hL : 1 ≤ chunkLen)
+    (f tail : MulKernel) (b : List Nat) (hb : IsWords W b)
+    (hf : ∀ c' neg a', a'.length = chunkLen → c'.length = chunkLen + b.length → IsWords W c' →
+      IsWords W a' → MulContract W f c' neg a' b)
+    (htail : GenContract W tail) :
+    ∀ (k : Nat) (c : List Nat) (neg : Bool) (a : List Nat) (carryN : Int),
+      c.length = a.length + b.length → IsWords W c → IsWords W a → -2 ≤ carryN → carryN ≤ 2 →
+      Upd W c (splitLoop W chunkLen f tail k c neg a b carryN).1
+        (splitLoop W chunkLen f tail k c neg a b carryN).2
+        (sgn neg * ((val W a * val W b : Nat) : Int) + (2 : Int) ^ (W * b.length) * carryN) := by
+  intro k
+  induction k with
+  | zero =>
+    intro c neg a carryN hcl hc ha hk1 hk2
+    simp only [splitLoop]
+    exact splitFinish_spec W hW tail htail c neg a b carryN hcl hc ha hb hk1 hk2
+  | succ k ih =>
+    intro c neg a carryN hcl hc ha hk1 hk2
+    simp only [splitLoop]
+    split
+    · rename_i hge
+      have h8 := eight_le_pow_int W hW
+      -- propagate the pending carry into c[n..chunkLen+n]
+      have hj1 : chunkLen + b.length ≤ c.length := by omega
+      have hwl1 := window_length c b.length (chunkLen + b.length) hj1
+      have hww1 := window_words hc b.length (chunkLen + b.length)
+      have hu1 := addSignedWord_upd W (window c b.length (chunkLen + b.length)) carryN hww1
+        (abs_lt.mpr ⟨by linarith, by linarith⟩)
+      have hpL : (8 : Int) ≤ (2 : Int) ^ (W * (chunkLen + b.length - b.length)) := by
+        have : 2 ^ 3 ≤ 2 ^ (W * (chunkLen + b.length - b.length)) :=
+          Nat.pow_le_pow_right (by omega) (by
+            have : W * 1 ≤ W * (chunkLen + b.length - b.length) := Nat.mul_le_mul_left _ (by omega)
+            omega)
+        exact_mod_cast this
+      have hb1 := hu1.carry_bound hww1 (by rw [hwl1]; exact abs_lt.mpr ⟨by linarith, by linarith⟩)
+      generalize addSignedWord W (window c b.length (chunkLen + b.length)) carryN = res1 at hu1 hb1
+      obtain ⟨w1, k1⟩ := res1
+      simp only at hu1 hb1 ⊢
+      obtain ⟨s1, s2, s3⟩ := setWindow_upd W c b.length (chunkLen + b.length) (by omega) hj1 hc w1 k1 _ hu1
+      -- the chunk product into c[..chunkLen+n]
+      have htk : (a.take chunkLen).length = chunkLen := length_take_of_le hge
+      have hw0 : (setWindow c b.length w1).take (chunkLen + b.length)
+          = window (setWindow c b.length w1) 0 (chunkLen + b.length) := by
+        unfold window; rfl
+      have hj2 : chunkLen + b.length ≤ (setWindow c b.length w1).length := by rw [s1]; exact hj1
+      have hwl2 := window_length (setWindow c b.length w1) 0 (chunkLen + b.length) hj2
+      have hww2 := window_words s2 0 (chunkLen + b.length)
+      have hu2 := hf ((setWindow c b.length w1).take (chunkLen + b.length)) neg (a.take chunkLen) htk
+        (by rw [hw0, hwl2]; omega) (by rw [hw0]; exact hww2) (ha.take _)
+      unfold MulContract at hu2
+      have hb2 := hu2.carry_bound (by rw [hw0]; exact hww2) (by
+        rw [abs_sgn_mul]
+        exact mul_lt_pow_int W _ _ (ha.take _) hb _ (by rw [hw0, hwl2, htk]; omega))
+      generalize f ((setWindow c b.length w1).take (chunkLen + b.length)) neg (a.take chunkLen) b
+        = res2 at hu2 hb2
+      obtain ⟨w2, k2⟩ := res2
+      simp only at hu2 hb2 ⊢
+      rw [hw0] at hu2
+      obtain ⟨u1, u2, u3⟩ := setWindow_upd W (setWindow c b.length w1) 0 (chunkLen + b.length)
+        (by omega) hj2 s2 w2 k2 _ hu2
+      -- the rest
+      generalize hc2 : setWindow (setWindow c b.length w1) 0 w2 = c2 at u1 u2 u3 ⊢
+      have hc2l : c2.length = c.length := by rw [u1, s1]
+      have hrest := ih (c2.drop chunkLen) neg (a.drop chunkLen) (k1 + k2)
+        (by rw [List.length_drop, List.length_drop, hc2l]; omega) (u2.drop _) (ha.drop _)
+        (by linarith [hb1.1, hb2.1]) (by linarith [hb1.2, hb2.2])
+      generalize splitLoop W chunkLen f tail k (c2.drop chunkLen) neg (a.drop chunkLen) b (k1 + k2)
+        = res3 at hrest
+      obtain ⟨r, carry⟩ := res3
+      simp only at hrest ⊢
+      rw [drop_eq_window] at hrest
+      have hrl : r.length = c2.length - chunkLen := by
+        rw [hrest.1, window_length c2 _ _ (Nat.le_refl _)]
+      rw [take_append_eq_setWindow c2 chunkLen r (by omega)]
+      obtain ⟨v1, v2, v3⟩ := setWindow_upd W c2 chunkLen c2.length (by omega) (Nat.le_refl _) u2 r carry _
+        hrest
+      refine ⟨by rw [v1, hc2l], v2, ?_⟩
+      have hva := val_take_add_drop W a chunkLen
+      rw [htk] at hva
+      rw [v3, u3, s3, hc2l, hva]
+      have hp : (2 : Int) ^ (W * (chunkLen + b.length))
+          = (2 : Int) ^ (W * chunkLen) * (2 : Int) ^ (W * b.length) := by
+        rw [← pow_add, ← Nat.mul_add]
+      rw [hp]
+      push_cast
+      simp only [Nat.mul_zero, pow_zero]
+      ring
+    · exact splitFinish_spec W hW tail htail c neg a b carryN hcl hc ha hb hk1 hk2
+
+-- ------------------------------------------------------------------ mul::add_signed_mul
+
+theorem addSignedMul_contract (W : Nat) (hW : 3 ≤ W) : ∀ fuel, GenContract W (addSignedMul W fuel) := by
+  intro fuel
+  induction fuel with
+  | zero =>
+    intro c neg a b hcl hc ha hb
+    unfold MulContract
+    simp only [addSignedMul]
+    split
+    · have := addSignedMulChunk_contract W c neg b a (by omega) hc hb ha
+      unfold MulContract at this
+      rw [Nat.mul_comm (val W a) (val W b)]; exact this
+    · exact addSignedMulChunk_contract W c neg a b hcl hc ha hb
+  | succ fuel ih =>
+    -- the ordered case: `a` is the longer operand
+    have ordered : ∀ c neg a b, b.length ≤ a.length → c.length = a.length + b.length → IsWords W c →
+        IsWords W a → IsWords W b →
+        Upd W c
+          (if b.length ≤ Dashu.Gen.mul_THRESHOLD_SIMPLE then
+            if a.length ≤ Dashu.Gen.mul_simple_CHUNK_LEN then addSignedMulChunk W c neg a b
+            else splitLoop W Dashu.Gen.mul_simple_CHUNK_LEN (addSignedMulChunk W) (addSignedMul W fuel)
+              a.length c neg a b 0
+          else if b.length ≤ Dashu.Gen.mul_THRESHOLD_KARATSUBA then
+            splitLoop W b.length (karatsubaSameLen W (addSignedMulSameLen W b.length))
+              (addSignedMul W fuel) a.length c neg a b 0
+          else splitLoop W b.length (addSignedMulFrontier W) (addSignedMul W fuel) a.length c neg a b 0).1
+          (if b.length ≤ Dashu.Gen.mul_THRESHOLD_SIMPLE then
+            if a.length ≤ Dashu.Gen.mul_simple_CHUNK_LEN then addSignedMulChunk W c neg a b
+            else splitLoop W Dashu.Gen.mul_simple_CHUNK_LEN (addSignedMulChunk W) (addSignedMul W fuel)
+              a.length c neg a b 0
+          else if b.length ≤ Dashu.Gen.mul_THRESHOLD_KARATSUBA then
+            splitLoop W b.length (karatsubaSameLen W (addSignedMulSameLen W b.length))
+              (addSignedMul W fuel) a.length c neg a b 0
+          else splitLoop W b.length (addSignedMulFrontier W) (addSignedMul W fuel) a.length c neg a b 0).2
+          (sgn neg * ((val W a * val W b : Nat) : Int)) := by
+      intro c neg a b hle hcl hc ha hb
+      have hts := threshold_simple_pos
+      split
+      · split
+        · exact addSignedMulChunk_contract W c neg a b hcl hc ha hb
+        · have := splitLoop_spec W hW _ chunk_len_pos (addSignedMulChunk W) (addSignedMul W fuel) b hb
+            (fun c' neg' a' h1 h2 h3 h4 => addSignedMulChunk_contract W c' neg' a' b (by omega) h3 h4 hb)
+            ih a.length c neg a 0 hcl hc ha (by omega) (by omega)
+          simpa using this
+      · rename_i hnot
+        split
+        · have := splitLoop_spec W hW b.length (by omega)
+            (karatsubaSameLen W (addSignedMulSameLen W b.length)) (addSignedMul W fuel) b hb
+            (fun c' neg' a' h1 h2 h3 h4 => karatsubaSameLen_contract W hW _
+              (addSignedMulSameLen_contract W hW b.length) c' neg' a' b h1 (by omega) (by omega) h3 h4 hb)
+            ih a.length c neg a 0 hcl hc ha (by omega) (by omega)
+          simpa using this
+        · have := splitLoop_spec W hW b.length (by omega) (addSignedMulFrontier W) (addSignedMul W fuel)
+            b hb (fun c' neg' a' _ _ _ _ => addSignedMulFrontier_contract W c' neg' a' b)
+            ih a.length c neg a 0 hcl hc ha (by omega) (by omega)
+          simpa using this
+    intro c neg a b hcl hc ha hb
+    unfold MulContract
+    simp only [addSignedMul]
+    by_cases hlt : a.length < b.length
+    · simp only [hlt, if_true]
+      have := ordered c neg b a (by omega) (by omega) hc hb ha
+      rw [Nat.mul_comm (val W a) (val W b)]; exact this
+    · simp only [hlt, if_false]
+      exact ordered c neg a b (by omega) hcl hc ha hb
 
 end Dashu.Model
